@@ -50,7 +50,11 @@ class ShapeFlow:
             return {OTHER}
         k = key_of(expr)
         if k is not None:
-            return set(env.get(k, {OTHER}))
+            if k in env:
+                return set(env[k])
+            if k.startswith('self.') and depth < 2:
+                return self.attr_shapes(k[5:], depth)
+            return {OTHER}
         if isinstance(expr, ast.Call):
             name = last_attr(expr)
             recv = receiver(expr) or ''
@@ -71,6 +75,26 @@ class ShapeFlow:
             if base == {MSG}:
                 return {PAIR}
         return {OTHER}
+
+    def attr_shapes(self, attr, depth=0):
+        """shapes of every value assigned to self.<attr> anywhere in the class hierarchy (flow-insensitive)"""
+        cache = self.__dict__.setdefault('_attr_shapes', {})
+        if attr in cache:
+            return set(cache[attr])
+        cache[attr] = {OTHER}
+        out = set()
+        found = False
+        for c in (self.cls.mro() if self.cls is not None else []):
+            if isinstance(c, str):
+                continue
+            for f in c.methods.values():
+                for st in walk_local(f.node):
+                    if isinstance(st, ast.Assign) and len(st.targets) == 1 and is_self_attr(st.targets[0], attr):
+                        found = True
+                        out |= self.shape(st.value, {}, depth + 1)
+        res = out if found else {OTHER}
+        cache[attr] = res
+        return set(res)
 
     # ---------------------------------------------------------------- transfer
     def transfer(self, node, env):
